@@ -122,25 +122,25 @@ theorem C11_leading_space_not_preserved :
 /-! ### the reader on frames that the writer does not produce -/
 
 /-- Full statement (false of the current code, see `C11_reader_never_panics_fails`). -/
-def C11_reader_never_panics : Prop := ∀ frame : Str, peel frame ≠ .panic
+def C11_reader_never_panics : Prop := ∀ (frame : Str) (c : Cause), peel frame ≠ .panic c
 
 /-- Witness FC11-1: an empty `node` (or `lane`) value makes `parse_text_token` hit `Incomplete`, on which
 `finish()` panics — as long as the code has that shape (`textTokenIncompletePanics`, re-read from the source). -/
 theorem C11_reader_never_panics_fails (h : textTokenIncompletePanics = true) : ¬ C11_reader_never_panics := by
   intro hall
   have w : textTokenIncompletePanics = true →
-      peel "@event(node:,lane:a)".toList = .panic := by decide
-  exact hall _ (w h)
+      peel "@event(node:,lane:a)".toList = .panic .finishIncomplete := by decide
+  exact hall _ _ (w h)
 
 /-- Witness F16 (C09's finding, reachable from the socket): a `\uD800` escape in a name. -/
 theorem C11_reader_never_panics_fails_surrogate (h : unescSurrogatePanics = true) : ¬ C11_reader_never_panics := by
   intro hall
   have w : unescSurrogatePanics = true →
-      peel "@event(node:\"\\ud800\",lane:a)".toList = .panic := by decide
-  exact hall _ (w h)
+      peel "@event(node:\"\\ud800\",lane:a)".toList = .panic .charTryFrom := by decide
+  exact hall _ _ (w h)
 
 /-- What does hold: no frame produced by the writer panics the reader or is rejected by it. -/
-theorem C11_reader_never_panics_partial (m : Msg) : peel (encode m) ≠ .panic ∧ peel (encode m) ≠ .err := by
+theorem C11_reader_never_panics_partial (m : Msg) : (∀ c, peel (encode m) ≠ .panic c) ∧ peel (encode m) ≠ .err := by
   rw [C11_read_write_any_body]; exact ⟨by simp, by simp⟩
 
 /-! ### non-vacuity: the hypotheses are met by awkward concrete names -/
